@@ -55,6 +55,8 @@ class Facts:
                 ins['idx'] = idx
                 ins['callmap'] = {bb: c for bb, c in ins['calls']}
                 ins['fnitemmap'] = {k: c for k, c in ins.get('fnitems', [])}
+                # call sites plus functions referenced as values (they may be called by whoever receives them)
+                ins['allcalls'] = list(ins['calls']) + [(None, c) for k, c in ins.get('fnitems', [])]
                 ins['closuremap'] = {(bb, si): cid for bb, si, cid in ins['closures']}
         self.fn_by_path = {}
         for f in r['fns']:
